@@ -387,6 +387,30 @@ def matrix_rows(ctx):
                "first as right id and the second as left id" % (name, sorted(ks[0]), sorted(ks[1])))
 
 
+def _zip_from_one(fa, e):
+    """`e` is the member of a `zip` item that comes from the unbounded range `1..`."""
+    e = strip_casts(e)
+    if e[0] != "ap" or e[1].root[0] != "call" or len(e[1].proj) < 2 or e[1].proj[-1] not in ("#0", "#1"):
+        return False
+    side = int(e[1].proj[-1][1])
+    t = fa.term(e[1].root[1])
+    for _ in range(6):
+        nm = {strip_generics(x).rsplit("::", 1)[-1] for x in callee_paths(t)}
+        if "zip" in nm and len(t["args"]) == 2:
+            o = fa.origin(t["args"][side])
+            if o[0] == "rv" and o[1]["k"] == "agg" and "RangeFrom" in str(o[1].get("agg")) + str(o[1].get("adt", "")):
+                c = op_const(o[1]["ops"][0])
+                return bool(c) and c.get("int") == 1
+            return False
+        if not t["args"]:
+            return False
+        o = fa.origin(t["args"][0])
+        if o[0] != "call":
+            return False
+        t = o[2]
+    return False
+
+
 def bigram_files(ctx):
     crate = ctx.facts("A").lib
     E = Effects(crate)
@@ -421,8 +445,12 @@ def bigram_files(ctx):
             e = FS.operand(t["op"])
             if e[0] == "binop" and e[1] in ("Ne", "Eq"):
                 s = show(e)
+                if "parse_features" not in s:
+                    continue
                 if "Add(" in s and ", 1)" in s:
                     n_ord += 1
+                elif any(_zip_from_one(ffa, x) for x in (e[2], e[3])):
+                    n_ord += 1          # `lines().zip(1..)`: the expected id counts from 1
     ctx.ob("FMT", "bigram.lr|reader|ids-are-line-number-1-based", n_ord == 2, fn_loc(crate, fp),
            "both id files must list id i+1 on line i (0-based)" if n_ord == 2 else
            "the ascending-id check (id == line + 1) is missing for one of the files")
